@@ -591,6 +591,11 @@ class Server:
         self.errorlog = os.path.join(self.dir, "error.log")
         with open(os.path.join(self.dir, "c20app.py"), "w") as fh:
             fh.write(APP_PY)
+        # started through a launcher script, not `python -m gunicorn`: on USR2 the arbiter re-executes
+        # sys.argv, and `python /repo/gunicorn/__main__.py` would put gunicorn/ itself first on sys.path
+        # (its `http` package then shadows the standard library's)
+        with open(os.path.join(self.dir, "c20run.py"), "w") as fh:
+            fh.write("import sys\nfrom gunicorn.app.wsgiapp import run\nsys.exit(run())\n")
         self.write_conf()
         self.table = []           # pids in order of creation; index = the model's process index
         self.masters = []         # pids that are masters
@@ -625,7 +630,7 @@ class Server:
                 enter_fake_group_db(ft)
             if mg is not None:
                 os.setgroups(mg)
-        self.proc = subprocess.Popen([sys.executable, "-m", "gunicorn", "-c", os.path.join(self.dir, "conf.py"), "c20app:app"],
+        self.proc = subprocess.Popen([sys.executable, os.path.join(self.dir, "c20run.py"), "-c", os.path.join(self.dir, "conf.py"), "c20app:app"],
                                      cwd=self.dir, env=env, stdout=open(os.path.join(self.dir, "stdout.txt"), "wb"),
                                      stderr=open(os.path.join(self.dir, "stderr.txt"), "wb"), preexec_fn=pre)
         self.table = [self.proc.pid]
